@@ -1,6 +1,7 @@
 package main
 
 import (
+	"encoding/json"
 	"context"
 	"fmt"
 	"math"
@@ -83,6 +84,31 @@ func c04Conds() []bs.NumericCondition {
 		cs = append(cs, bs.NumericIn(a), bs.NumericNotIn(a))
 		for _, b := range ops {
 			cs = append(cs, bs.NumericIn(a, b), bs.NumericNotIn(a, b), bs.NumericBetween(a, b), bs.NumericNotBetween(a, b))
+		}
+	}
+	// conditions are exported structs: built as literals and decoded from JSON their lists come
+	// in any order and with repeats (the helper functions are not the only way in)
+	lit := func(op bs.NumericCondition, vals ...int64) {
+		c := op
+		c.Values = append([]int64(nil), vals...)
+		cs = append(cs, c)
+		if b, err := json.Marshal(c); err == nil {
+			var d bs.NumericCondition
+			if json.Unmarshal(b, &d) == nil {
+				cs = append(cs, d)
+			}
+		}
+	}
+	small := []int64{math.MinInt64, -2, 0, 1, math.MaxInt64}
+	for _, a := range small {
+		for _, b := range small {
+			for _, c := range small {
+				if a == b && b == c {
+					continue
+				}
+				lit(bs.NumericIn(0), a, b, c)
+				lit(bs.NumericNotIn(0), a, b, c)
+			}
 		}
 	}
 	return cs
@@ -418,6 +444,6 @@ func init() {
 			}
 			return cs
 		},
-		Rule: "every block population of one or two values from the boundary alphabet (every Go integer/float kind incl. named types, int64 extremes, beyond-int64 magnitudes, ±Inf at function level) x every condition (10 operators x boundary operands, IN/NOT_IN lists of size 0-2, all ordered and inverted BETWEEN pairs) x {function level, metadata level, real flush, real merge}; plus every ordered pair (thorough: triples) of minmax interval shapes x file sizes merged by the engine and queried with every threshold condition; non-trivial = some value of the population satisfies the condition by exact math/big arithmetic",
+		Rule: "every block population of one or two values from the boundary alphabet (every Go integer/float kind incl. named types, int64 extremes, beyond-int64 magnitudes, ±Inf at function level) x every condition (10 operators x boundary operands, IN/NOT_IN lists of size 0-2 from the helpers and of size 3 in every order as struct literals and as JSON-decoded conditions, all ordered and inverted BETWEEN pairs) x {function level, metadata level, real flush, real merge}; plus every ordered pair (thorough: triples) of minmax interval shapes x file sizes merged by the engine and queried with every threshold condition; non-trivial = some value of the population satisfies the condition by exact math/big arithmetic",
 	}
 }
